@@ -124,7 +124,7 @@ func checkC02(p *Prog, r *Report) {
 		rAnch.Unproven(fnName(fn)+":arm-edge", posOf(sel), "could not find the branch taken for the receive arm")
 		return
 	}
-	armStart := Loc{armIf.Block().Succs[armSucc], -1}
+	armStart := edgeLoc(armIf.Block(), armSucc)
 
 	/* The payload: line + "\n". */
 	var payload ssa.Value
@@ -228,7 +228,7 @@ func checkC02(p *Prog, r *Report) {
 			return
 		}
 		for _, t := range tests {
-			from := Loc{t.If.Block().Succs[1-t.NilSucc], -1}
+			from := edgeLoc(t.If.Block(), 1-t.NilSucc)
 			if t.If.Block().Succs[0] == t.If.Block().Succs[1] {
 				continue
 			}
@@ -245,7 +245,7 @@ func checkC02(p *Prog, r *Report) {
 	if nil != okVal {
 		for _, bt := range boolTestsOf(fn, okVal) {
 			ifi := bt.If
-			from := Loc{ifi.Block().Succs[1-bt.TrueSucc], -1}
+			from := edgeLoc(ifi.Block(), 1-bt.TrueSucc)
 			hit := reachQ{From: from, Target: func(i ssa.Instruction) bool {
 				return i == ssa.Instruction(sel) || (nil != wcall && i == ssa.Instruction(wcall))
 			}}.run()
@@ -259,7 +259,7 @@ func checkC02(p *Prog, r *Report) {
 	/* Cancellation arm writes nothing. */
 	if didx, _ := hasDoneArm(sel); didx >= 0 && nil != wcall {
 		if dIf, dSucc := selectArmEdge(sel, didx); nil != dIf {
-			from := Loc{dIf.Block().Succs[dSucc], -1}
+			from := edgeLoc(dIf.Block(), dSucc)
 			if nil != (reachQ{From: from, Target: func(i ssa.Instruction) bool { return i == ssa.Instruction(wcall) || i == ssa.Instruction(sel) }}).run() {
 				rErr.Bad(fnName(fn)+":cancel-arm", posOf(dIf), "the cancellation arm continues to write or receive")
 			} else {
